@@ -170,6 +170,9 @@ Proof. intros Hp Hf s s' b G H. apply p_map_ok in H as (a & H & ->). apply Hf. e
 Lemma Ret_alt {A} (H : Ok A) (p q : parser A) : Ret H p -> Ret H q -> Ret H (p_alt p q).
 Proof. intros Hp Hq s s' a G E. apply p_alt_ok in E as [E|[_ E]]; [eapply Hp | eapply Hq]; eassumption. Qed.
 
+Lemma Ret_restore {A} (H : Ok A) (p : parser A) : Ret H p -> Ret H (p_restore p).
+Proof. intros Hp s s' a G E. apply p_restore_ok in E. eapply Hp; eassumption. Qed.
+
 Lemma Ret_opt {A} (H : Ok A) (p : parser A) : Ret H p -> Ret (ok_opt H) (p_opt p).
 Proof.
   intros Hp s s' o G E. unfold p_opt in E. destruct (p s) as [s1 a|e|] eqn:E1; [| |discriminate].
@@ -287,6 +290,7 @@ Ltac ret_step :=
   | apply Ret_fuel
   | apply Ret_ident
   | apply Ret_triv
+  | apply Ret_restore
   | apply Ret_alt
   | apply Ret_opt
   | apply Ret_pair; [ | solve [fwd_solve Hs0] | ]
@@ -421,7 +425,7 @@ Proof.
   apply Ret_alt; [eapply Ret_map; [ret | ok_side]|].
   apply Ret_alt.
   { eapply Ret_map; [ret|]. intros [[body t] inf] [[Hb _] _]. apply StmtOk_block. exact Hb. }
-  apply Ret_alt; [assumption|]. apply Ret_alt; [assumption|].
+  apply Ret_alt; [assumption|]. apply Ret_alt; [assumption|]. apply Ret_restore.
   eapply Ret_map; [ret | ok_side].
 Qed.
 
